@@ -684,6 +684,8 @@ def rule_self_alias(ck, F, X):
             eqs(c[3], out)
         elif isinstance(c, tuple) and c[0] == "binop" and c[1] == "Eq":
             out.append((strip(c[2]), strip(c[3])))
+        elif isinstance(c, tuple) and c[0] == "call" and str(c[1]).rsplit("::", 1)[-1] == "is_some_and" and len(c[2]) == 2:
+            eqs(c[2][1], out)     # `opt.is_some_and(|x| x == y)`: false where the comparison is (or nothing is there to compare)
         elif isinstance(c, tuple) and c[0] == "islet":
             pass
         return out
